@@ -293,3 +293,28 @@ def run_r5(run, rule='R5'):
         if f.name == '_import' and f.cls is not None and f.key != 'smuserlist:SMUserList._import':
             check_override_import(run, f)
     check_ctor_forwarding(run)
+
+
+def check_container_freshness(run, rule='R5'):
+    """In every constructor (and arghandler) of a list-capable class the list stored into self.data is made for this object:
+    `self.data = other.data` makes two objects share one list, so list mutation of one (append, insert, pop, x[i] = ..) changes
+    the other -- also the constructor ARGUMENT."""
+    prog = run.prog
+    n = 0
+    for f in prog.analysed_functions():
+        if f.cls is None or f.parent is not None or prog.UserList not in f.cls.mro:
+            continue
+        if f.name not in ('__init__', 'arghandler') and f.kind != 'class':
+            continue
+        s = f.selfname
+        for st in own_walk(f.node):
+            if isinstance(st, ast.Assign) and any(isinstance(t, ast.Attribute) and t.attr == 'data' and isinstance(t.value, ast.Name) and t.value.id == s for t in st.targets):
+                n += 1
+                v = st.value
+                if isinstance(v, ast.Attribute) and v.attr == 'data':
+                    run.violation(rule, f.key, 'container <- ' + src(v, 40), 'the list object %s of another instance is stored by reference: the new object and '
+                                  'the source share one list, so a later append/insert/pop/item assignment on either changes both (the '
+                                  'constructor argument included)' % src(v, 40), f=f, node=st)
+                else:
+                    run.holds(rule, f.key, 'container <- ' + src(v, 40), 'not the data attribute of another object', f=f, node=st, nontrivial=False)
+    return n
